@@ -82,7 +82,7 @@ META = {
 SIGNATURES = {}
 
 # generator knobs of this property: all edge kinds, every oracle feature
-KNOBS = {'p_dup_sel': 0.12, 'p_meta_names': 0.2, 'p_share_lists': 0.2}
+KNOBS = {'p_dup_sel': 0.12, 'p_meta_names': 0.2, 'p_share_lists': 0.2, 'p_combo': 0.2, 'p_calc_then_fail': 0.2}
 
 
 def plan(ctx, scale=1.0):
